@@ -42,6 +42,7 @@ type FuncContract struct {
 	Trusted  bool // contract assumed, body not verified
 	Uses     []string // lemmas assumed (proved separately)
 	Sets     []*GhostSet // ghost updates performed at return (definitional)
+	Grants   []*Clause // definitional facts about inductively defined ghost predicates: assumed at call sites, not proved in the body
 	AtCall   map[string][]*Clause // callee short name -> assertions that must hold at each of its call sites in this function
 	Asserts  []*Clause // "assert before call <callee>" clauses etc (unused)
 	File     string
@@ -367,12 +368,27 @@ func (cs *Contracts) LoadContractText(text, path, pkgPath string) error {
 			}
 			key := fields[1]
 			cur = &FuncContract{Key: key, PkgPath: pkgPath, Extern: kw == "extern", Loops: map[int]*LoopSpec{}, Checks: map[string]bool{}, File: base, Line: it.n}
+			if prev := cs.Funcs[pkgPath+"::"+key]; prev != nil {
+				return fmt.Errorf("%s:%d: duplicate contract for %s (first at line %d)", base, it.n, key, prev.Line)
+			}
 			cs.Funcs[pkgPath+"::"+key] = cur
 			curLemma = nil
 		case "inline":
 			for _, k := range fields[1:] {
 				cs.InlineKeys[pkgPath+"::"+k] = true
 			}
+		case "grants":
+			if cur == nil {
+				return fmt.Errorf("%s:%d: grants outside func", base, it.n)
+			}
+			cl, err := parseClause(rest, base, it.n, true)
+			if err != nil {
+				return err
+			}
+			if cl.Label == "" {
+				cl.Label = "g" + strconv.Itoa(len(cur.Grants)+1)
+			}
+			cur.Grants = append(cur.Grants, cl)
 		case "requires", "ensures":
 			c, err := parseClause(rest, base, it.n, true)
 			if err != nil {
